@@ -41,16 +41,27 @@ fn replay_verify() {
         rekeyed.sub_proofs[position].0 = TestRange::new(100, 200);
         assert!(rekeyed.verify().is_err(), "sub-proof #{position} presented under a key it is not attached to accepted");
 
-        // invalid sub-proof at any position: the sub-proof's own leaves replaced (its root kept, so it still looks attached)
+        // invalid sub-proof at any position that still LOOKS attached (its master proof, hence its root, is kept): one level down it
+        // carries a sub-proof of its own that is not attached to it
         let mut broken = honest.clone();
-        let foreign_leaf_proof = other.sub_proofs[position].1.master_proof.clone();
-        let mut sub = broken.sub_proofs[position].1.clone();
-        let kept_root = sub.master_proof.root().to_owned();
-        sub.master_proof = foreign_leaf_proof;
-        sub.master_proof.inner_root = kept_root;
-        broken.sub_proofs[position].1 = sub;
-        assert!(broken.verify().is_err(), "invalid sub-proof #{position} (foreign leaves under the honest sub-root) accepted");
+        broken.sub_proofs[position].1.sub_proofs.push((TestRange::new(0, 1), other.sub_proofs[position].1.clone()));
+        assert!(broken.sub_proofs[position].1.verify().is_err(), "nested detached sub-proof accepted");
+        assert!(broken.verify().is_err(), "invalid sub-proof #{position} (valid root, detached proof nested inside it) accepted");
     }
+
+    // proofs with exactly ONE sub-proof (a single certified leaf): detached / re-keyed / invalid
+    let single = honest_map.compute_proof(&honest_leaves[1..2]).unwrap();
+    single.verify().expect("honest single-leaf map proof rejected");
+    assert_eq!(single.sub_proofs.len(), 1);
+    let mut detached = single.clone();
+    detached.sub_proofs[0].1 = other.sub_proofs[1].1.clone();
+    assert!(detached.verify().is_err(), "the only sub-proof, detached from the master proof, accepted");
+    let mut rekeyed = single.clone();
+    rekeyed.sub_proofs[0].0 = TestRange::new(100, 200);
+    assert!(rekeyed.verify().is_err(), "the only sub-proof presented under another key accepted");
+    let mut broken = single.clone();
+    broken.sub_proofs[0].1.sub_proofs.push((TestRange::new(0, 1), other.sub_proofs[0].1.clone()));
+    assert!(broken.verify().is_err(), "the only sub-proof is invalid (detached proof nested inside it) and accepted");
 
     // an extra, detached sub-proof appended after the honest ones
     let mut extra = honest.clone();
